@@ -58,7 +58,7 @@ def fit_to_variational_target(
     keys = tqdm(jr.split(key, steps), disable=not show_progress)
 
     for key in keys:
-        params, opt_state, loss = step(
+        new_params, opt_state, loss = step(
             params,
             static,
             key,
@@ -69,6 +69,7 @@ def fit_to_variational_target(
         losses.append(loss.item())
         keys.set_postfix({"loss": loss.item()})
         if loss.item() == min(losses):
-            best_params = params
+            best_params = params  # The loss is evaluated before the update
+        params = new_params
     params = best_params if return_best else params
     return eqx.combine(params, static), losses
